@@ -540,6 +540,10 @@ func mutationsOf(rel string, b []byte, r interface{ IntN(int) int }, randomN int
 			if seen[v] {
 				continue
 			}
+			if strings.HasSuffix(f.Name, "int:FILE_SIZE") && (v == 1 || v == 2) {
+				// chunks of one or two bytes: Open only becomes slow (thousands of files), decides nothing
+				continue
+			}
 			if isOpt && v >= 1<<18 && v < 1<<30 {
 				// an option of a few hundred thousand to a billion makes Open merely slow
 				// (gigabytes of legitimate-looking buffers): decides nothing, costs a watchdog
